@@ -522,6 +522,49 @@ func extractC15() *lean {
 		})
 	}
 	l.def("stateAddPayloadGuard", "String", fmt.Sprintf("%q", addGuard), addGuard)
+	// State.Add: the statements of the early-return branch for a transaction that is already on the DAG (`if present {…}`), and
+	// every call in Add that can write a payload (with the condition of the innermost enclosing if)
+	var presentBranch, addPayloadWrites []string
+	if fd := funcDecl(stF, "Add"); fd != nil {
+		for _, st := range fd.Body.List {
+			if is, ok := st.(*ast.IfStmt); ok && c15Src(is.Cond) == "present" {
+				for _, b := range is.Body.List {
+					presentBranch = append(presentBranch, c15Src(b))
+				}
+				if is.Else != nil {
+					presentBranch = append(presentBranch, "else:"+c15Src(is.Else))
+				}
+			}
+		}
+		var walk func(n ast.Node, guard string)
+		walk = func(n ast.Node, guard string) {
+			ast.Inspect(n, func(m ast.Node) bool {
+				if m == n {
+					return true
+				}
+				switch x := m.(type) {
+				case *ast.IfStmt:
+					if x.Init != nil {
+						walk(x.Init, guard)
+					}
+					walk(x.Body, c15Src(x.Cond))
+					if x.Else != nil {
+						walk(x.Else, "else:"+c15Src(x.Cond))
+					}
+					return false
+				case *ast.CallExpr:
+					f := exprString(x.Fun)
+					if strings.HasSuffix(f, "WritePayload") || strings.HasSuffix(f, "writePayload") {
+						addPayloadWrites = append(addPayloadWrites, f+" if "+guard)
+					}
+				}
+				return true
+			})
+		}
+		walk(fd.Body, "-")
+	}
+	l.def("stateAddPresentBranch", "List String", leanStrList(presentBranch), presentBranch)
+	l.def("stateAddPayloadWrites", "List String", leanStrList(addPayloadWrites), addPayloadWrites)
 	l.def("tlsAuthenticatorFields", "List String", leanStrList(authFields), authFields)
 	l.def("authenticateReceiver", "String", fmt.Sprintf("%q", recv), recv)
 	l.def("authenticatorPackageVars", "List String", leanStrList(pkgVars), pkgVars)
